@@ -324,6 +324,17 @@ theorem after_time_split_lockstep_partial (c : SplitCfg σ) (body : σ → Resum
       (c.T false sj).trace = sj.trace.map (rnObs c.ρ) :=
   ⟨c.after_split_lockstep body hB fuel j sk sj hi hf h, rfl⟩
 
+/-- **What the driver prints is unaffected by the renaming**: the trace lines identify an event by its creation label and
+a process by the name kept in its local state; corresponding events have the same label, the same outcome up to the
+renaming and render to the same text (`renderSimple` reads labels only), and corresponding processes have the
+corresponding local state (the same one when, as for script programs, local states hold no ids: `c.rσ = id`). -/
+theorem rendering_invariant (c : SplitCfg σ) (q : Bool) (s : KState ℚ σ) (h : c.Inv s) (e p : Nat) (v : Val) :
+    ((c.T q s).ev (c.ρ e)).label = (s.ev e).label ∧
+    renderSimple (c.T q s) (rnVal c.ρ v) = renderSimple s v ∧
+    freezeVal (c.T q s) (rnVal c.ρ v) = rnVal c.ρ (freezeVal s v) ∧
+    (c.T q s).proc? (c.ρ p) = (s.proc? p).map (rnProc c.ρ c.rσ) :=
+  ⟨c.label_T q s h e, c.r_renderSimple q s h v, c.r_freezeVal q s h v, c.proc?_T q s p⟩
+
 /-- **The agenda list stays newest-first** (`SortedAg`: `eid`s strictly decreasing along the list and below the counter):
 it holds for an empty agenda and is kept by every API call and by every step, however the step ends — so the
 `SortedAg` hypothesis of the stage-3 theorems holds in every state reached from a fresh environment. -/
